@@ -81,21 +81,24 @@ func (p *Parser) ParseFile(filename string, varPool *VarPool) (*MetaData, []*Bui
 
 	slog.Debug("kessoku package", "kessokuPkg", kessokuPkg)
 
-	// Find the syntax file that matches our target filename
-	var targetFile *ast.File
+	// Find the syntax file that matches our target filename, and the file this run
+	// is going to overwrite: what a previous run left there is not an input of this one.
+	var targetFile, previousOutput *ast.File
 	absFilename, _ := filepath.Abs(filename)
+	absOutput, _ := filepath.Abs(outputFileName(filename))
 	for i, f := range pkg.Syntax {
 		if f != nil && i < len(pkg.GoFiles) {
 			absGoFile, _ := filepath.Abs(pkg.GoFiles[i])
 			if absGoFile == absFilename {
 				targetFile = f
-				break
+			} else if absGoFile == absOutput {
+				previousOutput = f
 			}
 		}
 	}
 
 	for _, f := range pkg.Syntax {
-		if f == nil {
+		if f == nil || f == previousOutput {
 			continue
 		}
 
@@ -131,7 +134,7 @@ func (p *Parser) ParseFile(filename string, varPool *VarPool) (*MetaData, []*Bui
 	}
 
 	for _, f := range pkg.Syntax {
-		if f == nil {
+		if f == nil || f == previousOutput {
 			continue
 		}
 
